@@ -119,6 +119,8 @@ func atomsOf(d managed.ConnectionDetails) map[string]string {
 
 const thingSecret = "thing-conn"
 
+var templateSeq int
+
 // template renders the P&T resource template of family e2ept.
 func template(cfgs []cfgIn) v1.ComposedTemplate {
 	base := map[string]any{"apiVersion": "ex.org/v1", "kind": "ComposedThing",
@@ -127,11 +129,27 @@ func template(cfgs []cfgIn) v1.ComposedTemplate {
 			"writeConnectionSecretToRef": map[string]any{"name": thingSecret, "namespace": nsX}}}
 	raw, _ := json.Marshal(base)
 	t := v1.ComposedTemplate{Name: ptr.To("t1"), Base: runtime.RawExtension{Raw: raw}}
+	// Every other template is one that was MIGRATED from the time before connection details had a `type`: next to the explicit
+	// type and its own source field, each detail still carries the other, now meaningless source fields. The explicit type
+	// decides (added after the seeded change C09-m9 - inference from the legacy fields beats the explicit type - was missed).
+	templateSeq++
+	leftovers := templateSeq%2 == 0
 	for _, c := range cfgs {
 		x := extractCfg(c)
 		tp := v1.ConnectionDetailType(x.Type)
-		t.ConnectionDetails = append(t.ConnectionDetails, v1.ConnectionDetail{Name: ptr.To(x.Name), Type: &tp,
-			FromConnectionSecretKey: x.FromConnectionSecretKey, FromFieldPath: x.FromFieldPath, Value: x.Value})
+		d := v1.ConnectionDetail{Name: ptr.To(x.Name), Type: &tp,
+			FromConnectionSecretKey: x.FromConnectionSecretKey, FromFieldPath: x.FromFieldPath, Value: x.Value}
+		if leftovers {
+			switch c.Tp {
+			case "path":
+				d.FromConnectionSecretKey, d.Value = ptr.To("k1"), ptr.To("leftover")
+			case "key":
+				d.FromFieldPath, d.Value = ptr.To(paths["pstr"]), ptr.To("leftover")
+			case "value":
+				d.FromConnectionSecretKey, d.FromFieldPath = ptr.To("k1"), ptr.To(paths["pstr"])
+			}
+		}
+		t.ConnectionDetails = append(t.ConnectionDetails, d)
 	}
 	return t
 }
